@@ -485,6 +485,61 @@ pub fn rows_of(p: &mut pool::Pool) -> Vec<Row> {
     v
 }
 
+/// The stored rows read straight from the database file with our own connection; independent
+/// of `Pool::get_leases`.  NULL option blobs (rows written before the column existed) read as
+/// empty.
+pub fn rows_sql(path: &std::path::Path) -> Result<Vec<Row>, String> {
+    let conn = rusqlite::Connection::open_with_flags(path, rusqlite::OpenFlags::SQLITE_OPEN_READ_ONLY)
+        .map_err(|e| e.to_string())?;
+    let mut st = conn
+        .prepare("SELECT address, clientid, start, expiry, options FROM leases")
+        .map_err(|e| e.to_string())?;
+    let mut v: Vec<Row> = st
+        .query_map([], |r| {
+            let a: String = r.get(0)?;
+            let c: Option<Vec<u8>> = r.get(1)?;
+            let s: i64 = r.get(2)?;
+            let e: i64 = r.get(3)?;
+            let o: Option<Vec<u8>> = r.get(4)?;
+            Ok((a, c, s, e, o))
+        })
+        .map_err(|e| e.to_string())?
+        .collect::<Result<Vec<_>, _>>()
+        .map_err(|e| e.to_string())?
+        .into_iter()
+        .map(|(a, c, s, e, o)| Row {
+            ip: a.parse().unwrap_or(Ipv4Addr::UNSPECIFIED),
+            client: c.unwrap_or_default(),
+            start: s as _,
+            expire: e as _,
+            options: match o {
+                Some(o) if !o.is_empty() => canon_options(&o),
+                _ => vec![],
+            },
+        })
+        .collect();
+    v.sort();
+    Ok(v)
+}
+
+/// The listing the API is built from, as a Result (rows_of panics on an error).
+pub fn listing_of(p: &mut pool::Pool) -> Result<Vec<Row>, String> {
+    let mut v: Vec<Row> = p
+        .get_leases()
+        .map_err(|e| e.to_string())?
+        .into_iter()
+        .map(|l| Row {
+            ip: l.ip,
+            client: l.client_id,
+            start: l.start,
+            expire: l.expire,
+            options: if l.options.is_empty() { vec![] } else { canon_options(&l.options) },
+        })
+        .collect();
+    v.sort();
+    Ok(v)
+}
+
 pub fn make_config(subnet_base: Ipv4Addr, addrs: &[Ipv4Addr]) -> erbium::config::Config {
     let mut pol = dhcp::config::Policy::default();
     pol.match_subnet = Some(erbium_net::Ipv4Subnet::new(subnet_base, 24).unwrap());
@@ -530,8 +585,28 @@ impl Sim {
         }
     }
 
+    /// A file-backed world whose database file already exists (written by the caller, e.g. in
+    /// the layout of an older release); the file is removed when the Sim is dropped.
+    pub fn with_existing_db(world: &World, path: std::path::PathBuf) -> Result<Sim, String> {
+        let pool = pool::Pool::verif_open(&path).map_err(|e| e.to_string())?;
+        Ok(Sim {
+            world: world.clone(),
+            pool: Some(pool),
+            path: Some(path),
+            pools_now: world.pools.clone(),
+            serverids: HashSet::new(),
+            last_addr: vec![None; world.clients.len()],
+            shift: 0,
+            step_no: 0,
+        })
+    }
+
     pub fn rows(&mut self) -> Vec<Row> {
         rows_of(self.pool.as_mut().unwrap())
+    }
+
+    pub fn db_path(&self) -> Option<std::path::PathBuf> {
+        self.path.clone()
     }
 
     fn resolve(&self, a: &Addr, client: usize) -> Option<Ipv4Addr> {
